@@ -197,6 +197,9 @@ package mem
 //@   requires f.store != nil
 //@   range 1 over f.store.records visited V key k
 //@   range 1 invariant "shape" ref(names) == 0 || fresh(names)
+//@   range 1 invariant "nonempty-complete" forall(k, V, implies(isChildKey(k, f.path), len(names) > 0))
+//@   range 1 invariant "nonempty-sound" implies(len(names) > 0, exists(k, dom(f.store.records), isChildKey(k, f.path)))
 //@   ensures "notdir" implies(f.mode&hackpadfs.ModeDir == 0, names == nil && err == hackpadfs.ErrNotDir)
 //@   ensures "dir" implies(f.mode&hackpadfs.ModeDir != 0, err == nil)
+//@   ensures "nonempty" [C03 C01] implies(err == nil, iff(len(names) > 0, exists(k, dom(f.store.records), isChildKey(k, f.path))))
 //@   nopanic
